@@ -284,7 +284,9 @@ def process_unit(path, tier, seed):
     rec["items"] = meta["items"]
     rec["notes"] = meta["notes"]
     rec["dropped"] = meta["dropped"]
-    rlimit = 40 if tier == "thorough" else None
+    rlimit = meta.get("rlimit")
+    if tier == "thorough":
+        rlimit = max(40, (rlimit or 10) * 2)
     with cf.ThreadPoolExecutor(max_workers=4) as ex:
         f1 = ex.submit(run_verus, genpath, rlimit, None)
         vfs = [ex.submit(run_verus, vp, rlimit, None) for vp, _, _ in vruns]
